@@ -592,28 +592,36 @@ func (dsc *dataStoreCommand) bitfieldWrite(keyName string, ops []*bitfieldOp) (o
 		if op.op == BF_GET {
 			results = append(results, n)
 		} else {
-			newValue := op.value
+			// Overflow handling follows Redis' bitfieldGeneric: INCRBY checks
+			// old+increment, SET checks the new value itself.
+			checked, incr := op.value, int64(0)
 			if op.op == BF_INCRBY {
-				newValue = n + newValue
+				checked, incr = n, op.value
 			}
 
-			// detect underflow and overflow
-			var outOfBounds bool
+			var dir int
+			var newValue, limitMax, limitMin int64
 			if op.signed {
-				outOfBounds = isSignedSumOverflow(n, op.value, bits)
+				dir, newValue = signedBitfieldOverflow(checked, incr, bits)
+				limitMax = int64(uint64(1)<<(bits-1) - 1)
+				limitMin = -limitMax - 1
 			} else {
-				// unsigned underflows when it goes negative
-				outOfBounds = newValue < 0 || isUnsignedOverflow(newValue, bits)
+				var wrapped uint64
+				dir, wrapped = unsignedBitfieldOverflow(uint64(checked), incr, bits)
+				newValue = int64(wrapped)
+				limitMax = int64(uint64(1)<<bits - 1)
+				limitMin = 0
 			}
-			if outOfBounds {
+			if dir != 0 {
 				switch op.oflow {
 				case OFLOW_WRAP:
-					newValue &= (1 << bits) - 1
-					if op.signed {
-						newValue = signExtend(newValue, bits)
-					}
+					// newValue already holds the wrapped result
 				case OFLOW_SAT:
-					newValue = saturateValue(op.signed, newValue, bits)
+					if dir > 0 {
+						newValue = limitMax
+					} else {
+						newValue = limitMin
+					}
 				case OFLOW_FAIL:
 					results = append(results, nil)
 					continue
